@@ -36,8 +36,31 @@ def setup_parent(it, cfg):
         po.attrs.update({"_pid": env["pid"], "create_time": EnvFunc("create_time", lambda it3: pct)})
 
     it.ctx.ghost["ctor_effect"] = ctor_effect
+    # process_iter()'s cache may hold, under ANY pid, an object made for an earlier owner of that pid (it is refreshed only by
+    # the next full pass): whoever consults it gets a handle with an unrelated start time
+    stale_ct = it.fresh("cached_handle_start", "Real")
+
+    class StaleCache:
+        def _handle(self, it2, key):
+            return Obj("Process", {"_pid": key, "pid": key, "create_time": EnvFunc("create_time", lambda it3: stale_ct),
+                                   "_ident": (key, stale_ct), "_gone": False, "_pid_reused": False}, module=mod)
+
+        def vc_getattr(self, it2, name):
+            if name == "get":
+                return EnvFunc("get", lambda it3, key, default=None: self._handle(it3, key))
+            if name == "copy":
+                return EnvFunc("copy", lambda it3: self)
+            raise Unsupported(f"_pmap.{name}")
+
+        def vc_contains(self, it2, x):
+            return True
+
+        def vc_getitem(self, it2, key):
+            return self._handle(it2, key)
+
+    it.env_over["__init__._pmap"] = StaleCache()
     return {"args": {"self": o}, "spec": {"low": low, "ppid": ppid, "myct": myct, "pct": pct, "exists": exists},
-            "values": [low, ppid, pct, exists]}
+            "values": [low, ppid, pct, exists, stale_ct]}
 
 
 REGISTRY.add(Contract("C05", INIT, "Process.__init__", callee_only=True,
@@ -176,7 +199,9 @@ def setup_guard(it, cfg):
 REGISTRY.add(Contract(
     "C05", INIT, "Process._raise_if_pid_reused", setup=setup_guard, env=ENV, inline=["pid"],
     ensures=["not g0 and not r0",                       # returns only for a handle never seen gone or recycled ...
-             "not self._pid_reused and not self._gone"],
+             "not self._pid_reused and not self._gone",
+             # ... whose identity was checked in THIS call and found intact (the flags alone only remember earlier checks)
+             "log == [('is_running',)] and verdict"],
     raises={"NoSuchProcess": ["exc.pid == self._pid"]},
     canaries=["g0"], replay=None,
     note="children()/parent()/ppid() start with this guard: once the process was seen gone or its PID recycled, they raise "
